@@ -550,6 +550,8 @@ void carquet_column_reader_free(carquet_column_reader_t* reader) {
 
     free(reader->page_buffer);
     free(reader->page_data_for_values);
+    carquet_column_release_retired_pages(reader);
+    free(reader->retired_page_data);
     free(reader->dictionary_data);
     free(reader->dictionary_offsets);
 
